@@ -1,5 +1,6 @@
 import TF.Proofs.PolyDiv
 import TF.Proofs.PolyDivNtt
+import TF.Proofs.PolyApiD
 /-!
 # C09 — polynomial division, reduction, gcd and power-series inversion are exact
 
@@ -156,6 +157,32 @@ theorem truncate_spec (p : List K) (k : Nat) :
     denote (truncate FK p k) = denote p / X ^ (degSucc FK p - (k + 1)) :=
   TF.Proofs.PolyD.truncate_spec root p k
 example : (3 : Nat) - (5 + 1) = 0 := rfl
+
+/-- `truncate(k)` **as compiled** (release profile: `k + 1` in `usize`, wrapping): for every `k < usize::MAX` it is
+    the function of `truncate_spec` — the `k+1` highest coefficients, for every storage -/
+theorem truncate_usize_spec (p : List K) (k : Nat) (hk : k + 1 < 2 ^ 64) :
+    denote (truncateUsize FK p k) = denote p / X ^ (degSucc FK p - (k + 1)) := by
+  rw [TF.Model.PolyD.truncateUsize_eq root p k hk]; exact TF.Proofs.PolyD.truncate_spec root p k
+example : (0 : Nat) + 1 < 2 ^ 64 := by norm_num
+
+/-- **finding F13** — the excluded value `k = usize::MAX`: the compiled `truncate` returns the zero polynomial for
+    every input (the dev/test profile panics instead), while the documented result — the right-hand side of
+    `truncate_spec` — is the polynomial itself; so the property fails there for every non-zero polynomial
+    (with fewer than `2^64` coefficients, i.e. every one that fits in memory).  Witness on the implementation:
+    `[1,2,3].truncate(usize::MAX) = 0`. -/
+theorem truncate_usize_max_violates (p : List K) (hlen : degSucc FK p ≤ 2 ^ 64) (hp : denote p ≠ 0) :
+    truncateUsize FK p (2 ^ 64 - 1) = [] ∧
+    denote p / X ^ (degSucc FK p - (2 ^ 64 - 1 + 1)) = denote p ∧
+    denote (truncateUsize FK p (2 ^ 64 - 1)) ≠ denote p / X ^ (degSucc FK p - (2 ^ 64 - 1 + 1)) := by
+  have h0 := TF.Model.PolyD.truncateUsize_max root p
+  have he : degSucc FK p - (2 ^ 64 - 1 + 1) = 0 := by omega
+  have hq : denote p / X ^ (degSucc FK p - (2 ^ 64 - 1 + 1)) = denote p := by
+    rw [he, pow_zero]; exact EuclideanDomain.div_one _
+  refine ⟨h0, hq, ?_⟩
+  rw [h0, hq]
+  exact fun h => hp h.symm
+example : denote ([1, 2, 3] : List ℚ) ≠ 0 := by
+  intro h; have := congrArg (fun p => p.coeff 0) h; simp at this
 
 /-- `structured_multiple_of_degree(n)` for every non-zero `p` (any storage, any factor `X^k`) and every `n ≥ deg p`:
     it does not panic and returns a multiple of `p` of degree **exactly** `n`; for `deg p ≥ 1` the multiple is monic,
